@@ -42,6 +42,7 @@ Definition read_rev (cur : N) (op : cop) : option N :=
   | CCount => Some cur
   | CScanCount rev => Some rev
   | CStream rev => Some (eff_rev cur rev)
+  | CStreamPart rev => Some (eff_rev cur rev)
   | _ => None
   end.
 
@@ -51,6 +52,7 @@ Definition c08_step_ok (cur floor : N) (st : c08_step) : bool :=
   && (floor <=? floor')                                             (* the floor only rises *)
   && match s8_op st, s8_obs st with
      | CCompact _ _ _, OCompact h COk => h <=? floor'               (* an accepted compaction sets the floor *)
+     | CCompact2 _ _, OCompact h COk => h <=? floor'
      | _, _ => true
      end
   && match read_rev cur (s8_op st), s8_obs st with
